@@ -23,6 +23,7 @@ import (
 	"math/rand"
 	"os"
 	"path/filepath"
+	"runtime"
 	"strings"
 	"sync"
 	"time"
@@ -875,6 +876,15 @@ func (w *c04Pipe) Write(p []byte) (int, error) {
 	return len(p), nil
 }
 
+// c04Abort: `failed` has returned an error.  As clientError / serverError do first, it stops
+// accepting input and drains what is queued (so that the peer's Write into it cannot block);
+// then the peer is stopped instead of waiting for its receive time-out.
+func c04Abort(failed, peer *trzszTransfer) {
+	failed.stopped.Store(true)
+	failed.buffer.drainBuffer()
+	peer.stopTransferringFiles(false)
+}
+
 type c04WireCfg struct {
 	Run      int    `json:"run"`
 	Escape   bool   `json:"escape"`
@@ -1014,20 +1024,23 @@ func c04OneUpload(d *vCtx, tr *vTrace, cfg *c04WireCfg, rng *rand.Rand) (infra e
 	}()
 	var cerr, serr error
 	var cok, sok bool
-	watchdog := time.After(120 * time.Second)
+	watchdog := time.After(time.Duration(d.pInt("watchdog", 120)) * time.Second)
 	for !(cok && sok) {
 		select {
 		case cerr = <-cliDone:
 			cok = true
 			if cerr != nil && !sok {
-				srv.stopTransferringFiles(false) // unblock the peer instead of waiting for its timeout
+				c04Abort(cli, srv)
 			}
 		case serr = <-srvDone:
 			sok = true
 			if serr != nil && !cok {
-				cli.stopTransferringFiles(false)
+				c04Abort(srv, cli)
 			}
 		case <-watchdog:
+			stack := make([]byte, 1<<20)
+			stack = stack[:runtime.Stack(stack, true)]
+			_ = os.WriteFile(d.path(fmt.Sprintf("hang-run%d.stacks", cfg.Run)), stack, 0o644)
 			return fmt.Errorf("upload run %d (%+v) did not finish within 120s", cfg.Run, *cfg)
 		}
 	}
